@@ -398,6 +398,26 @@ func main() {
 			}
 		}
 	}
+	// spheres whose bounding box (and lattice) lies far from the origin: the lattice steps of the three axes are
+	// rounded separately, so a position computed with another axis' step shows only here
+	for _, ct := range []v3.Vec{{X: 10}, {X: 7.1}, {X: -3.3}, {Y: 7.1}, {Z: -3.3}, {X: 100.3, Y: 5, Z: -5}, {X: -1e3, Y: 1e3, Z: 0.1}, {X: 0.3, Y: 1e4, Z: -20.7}} {
+		for _, R := range []float64{1, 0.37} {
+			for _, n := range vlib.Pick(c, []int{7, 20, 50}, []int{7, 13, 20, 33, 50, 64}) {
+				for _, r := range renderers {
+					R, ct := R, ct
+					bb := cube(2.5*R, 2.5*R, 2.5*R)
+					bb.Min, bb.Max = bb.Min.Add(ct), bb.Max.Add(ct)
+					ajobs = append(ajobs, ajob{fmt.Sprintf("sphere R=%g centre %v (box moved with it)", R, ct), func(p v3.Vec) float64 { return p.Sub(ct).Length() - R }, bb, n, r,
+						func(h float64) float64 {
+							if R-h <= 0 {
+								return h
+							}
+							return h*h/(8*(R-h))*(1+1e-9) + 1e-9*ct.Length()
+						}, func(h float64) float64 { return math.Sqrt(3) * h }, func(p v3.Vec) v3.Vec { return p.Sub(ct) }, "sphere-far-from-origin"})
+				}
+			}
+		}
+	}
 	// exact / 1-Lipschitz solids in 3 poses
 	m3 := func(s sdf.SDF3, err error) sdf.SDF3 {
 		if err != nil {
@@ -585,6 +605,10 @@ func main() {
 		{"box 2x2x2 in its own tight box", bx.Evaluate, bx.BoundingBox(), boxPts(1, 1, 1), 8, false},
 		{"sphere R=1 in its own tight box", func(p v3.Vec) float64 { return p.Length() - 1 }, cube(2, 2, 2), func(float64) []v3.Vec { return fib(1, v3.Vec{}, 400) }, 4.0 / 3 * math.Pi, true},
 		{"box 3x2x1 in its own tight box", m3(sdf.Box3D(v3.Vec{X: 3, Y: 2, Z: 1}, 0)).Evaluate, cube(3, 2, 1), boxPts(1.5, 1, 0.5), 6, false},
+		// very small and very large models: nothing in the renderers may depend on an absolute length
+		{"sphere R=0.005", func(p v3.Vec) float64 { return p.Length() - 0.005 }, cube(0.0125, 0.0125, 0.0125), func(float64) []v3.Vec { return fib(0.005, v3.Vec{}, 400) }, 4.0 / 3 * math.Pi * 0.005 * 0.005 * 0.005, true},
+		{"sphere R=1e-4 off-centre", func(p v3.Vec) float64 { return p.Sub(ct0.MulScalar(1e-4)).Length() - 1e-4 }, cube(2.5e-4, 2.5e-4, 2.5e-4), func(float64) []v3.Vec { return fib(1e-4, ct0.MulScalar(1e-4), 400) }, 4.0 / 3 * math.Pi * 1e-12, true},
+		{"sphere R=5000", func(p v3.Vec) float64 { return p.Length() - 5000 }, cube(12500, 12500, 12500), func(float64) []v3.Vec { return fib(5000, v3.Vec{}, 400) }, 4.0 / 3 * math.Pi * 125e9, true},
 	}
 	ladder := vlib.Pick(c, []int{8, 16, 32}, []int{8, 16, 32, 64})
 	for _, j := range cjs {
@@ -596,7 +620,7 @@ func main() {
 				h := j.bb.Size().MaxComponent() / float64(n)
 				diag := math.Sqrt(3) * h
 				rp := mesh.Check3(ts, 1e-6*h)
-				errs = append(errs, math.Abs(rp.Volume-j.vol))
+				errs = append(errs, math.Abs(rp.Volume-j.vol)/j.vol)
 				desc := map[string]any{"shape": j.name, "meshCells": n, "renderer": r.name}
 				pts := j.pts(diag)
 				var bad atomic.Int64
